@@ -401,6 +401,10 @@ func (e *Engine) execInstr(st *State, b *ssa.BasicBlock, idx int, in ssa.Instruc
 		e.runAts(st, in, true)
 		return true
 	case *ssa.Defer:
+		e.runAts(st, in, false)
+		if st.dead {
+			return false
+		}
 		cc := x.Common()
 		var d deferred
 		d.call = cc
@@ -820,6 +824,11 @@ func (e *Engine) execSelect(st *State, b *ssa.BasicBlock, idx int, x *ssa.Select
 		}
 		f2.regs[x] = Val{K: kTuple, Typ: tup, Tup: vs}
 		s2.trace = append(s2.trace, fmt.Sprintf("select:%d", which))
+		// "at after select#k": callresult0 is the index of the case taken, callargN the channel of case N
+		e.runAts(s2, x, true)
+		if s2.dead {
+			continue
+		}
 		e.execInstrs(s2, b, idx+1)
 	}
 	_ = fr
